@@ -524,6 +524,20 @@ func (x *Exec) globalTV(fc *frameCtx, st *State, name string) *TV {
 		pkg = funcPkgPath(fc.fn)
 	}
 	sp := x.W.SSAPkgs[pkg]
+	if sp == nil || sp.Members[name] == nil {
+		// predicates are shared between packages: an integer constant named in a predicate body is
+		// looked up in the module's other packages (first match in path order)
+		for _, pp := range sortedKeys(x.W.SSAPkgs) {
+			if !strings.HasPrefix(pp, modPath) {
+				continue
+			}
+			if nc, ok := x.W.SSAPkgs[pp].Members[name].(*ssa.NamedConst); ok {
+				sp = x.W.SSAPkgs[pp]
+				_ = nc
+				break
+			}
+		}
+	}
 	if sp == nil {
 		return nil
 	}
